@@ -262,6 +262,43 @@ static bool undirected_connected(const std::vector<std::vector<int>>& nb)
     return cnt == n;
 }
 
+
+// oracle contract of the (generalised) self-adjoint solver measured on one call, with plain loops (no GEMM
+// instantiation): A V = B V Lambda, V^T B V = I, V (V^T B) = I, ascending; B = NULL means identity
+static void contract_measures(const DenseMatrix& A, const DenseMatrix* B, const DenseMatrix& V, const DenseVector& lam,
+                              double& res, double& gram, double& comp, int& asc)
+{
+    const int n = A.rows();
+    DenseMatrix BV(n, n);
+    for (int i = 0; i < n; i++)
+        for (int c = 0; c < n; c++)
+        {
+            double s = 0;
+            if (B) { for (int t = 0; t < n; t++) s += (*B)(i, t) * V(t, c); } else s = V(i, c);
+            BV(i, c) = s;
+        }
+    double amax = 1.0;
+    res = gram = comp = 0;
+    for (int i = 0; i < n; i++)
+        for (int c = 0; c < n; c++)
+        {
+            amax = std::max(amax, std::fabs(A(i, c)));
+            double av = 0, g = 0, cm = 0;
+            for (int t = 0; t < n; t++)
+            {
+                av += A(i, t) * V(t, c);
+                g += V(t, i) * BV(t, c);
+                cm += V(i, t) * BV(c, t);      // (V (V^T B))_{ic} = sum_t V_it (B V)_{ct} for symmetric B
+            }
+            res = std::max(res, std::fabs(av - BV(i, c) * lam(c)));
+            gram = std::max(gram, std::fabs(g - (i == c ? 1.0 : 0.0)));
+            comp = std::max(comp, std::fabs(cm - (i == c ? 1.0 : 0.0)));
+        }
+    res /= amax;
+    asc = 1;
+    for (int i = 0; i + 1 < n; i++) if (lam(i) > lam(i + 1)) asc = 0;
+}
+
 static void run_lap(std::istringstream& is)
 {
     int n, md; std::string wtok;
@@ -359,11 +396,9 @@ static void run_le(std::istringstream& is)
             // this call: L V = D V Lambda, V^T D V = I, V (V^T D) = I, ascending
             const DenseMatrix V = ref.eigenvectors();
             const DenseVector lam = ref.eigenvalues();
-            double res = (Lref * V - Dref * V * lam.asDiagonal()).cwiseAbs().maxCoeff() / std::max(1.0, Lref.cwiseAbs().maxCoeff());
-            double gram = (V.transpose() * Dref * V - DenseMatrix::Identity(n, n)).cwiseAbs().maxCoeff();
-            double comp = (V * (V.transpose() * Dref) - DenseMatrix::Identity(n, n)).cwiseAbs().maxCoeff();
-            int asc = 1;
-            for (int i = 0; i + 1 < n; i++) if (lam(i) > lam(i + 1)) asc = 0;
+            double res, gram, comp;
+            int asc;
+            contract_measures(Lref, &Dref, V, lam, res, gram, comp, asc);
             printf("@ORACLE 1 4 %a %a %a %a\n", res, gram, comp, (double)asc);
         }
         else
@@ -417,11 +452,9 @@ static void run_dmap(std::istringstream& is)
             // oracle contract of SelfAdjointEigenSolver measured on this call: M V = V Lambda, V^T V = I, ascending
             const DenseMatrix V = ref.eigenvectors();
             const DenseVector lam = ref.eigenvalues();
-            double res = (M * V - V * lam.asDiagonal()).cwiseAbs().maxCoeff();
-            double gram = (V.transpose() * V - DenseMatrix::Identity(n, n)).cwiseAbs().maxCoeff();
-            double comp = (V * V.transpose() - DenseMatrix::Identity(n, n)).cwiseAbs().maxCoeff();
-            int asc = 1;
-            for (int i = 0; i + 1 < n; i++) if (lam(i) > lam(i + 1)) asc = 0;
+            double res, gram, comp;
+            int asc;
+            contract_measures(M, NULL, V, lam, res, gram, comp, asc);
             printf("@ORACLE 1 4 %a %a %a %a\n", res, gram, comp, (double)asc);
         }
     }
